@@ -1,4 +1,7 @@
+#[cfg(not(all(rust_ndarray_ndarray_stats_verif, rust_ndarray_ndarray_stats_verif_modelmap)))]
 use indexmap::IndexMap;
+#[cfg(all(rust_ndarray_ndarray_stats_verif, rust_ndarray_ndarray_stats_verif_modelmap))]
+use crate::verif_hooks::ModelMap as IndexMap;
 use ndarray::prelude::*;
 use ndarray::{Data, DataMut, Slice};
 use rand::prelude::*;
